@@ -6,6 +6,7 @@ package main
 // addition / moves by another exercise the command's own column bookkeeping.
 
 import (
+	"encoding/csv"
 	"fmt"
 	"math/rand"
 	"os"
@@ -554,4 +555,361 @@ func c05HistEmit(ctx *Ctx, in *c05HInput, tags ...string) {
 // own random stream, after everything the case drew before.
 func runC05Hist(ctx *Ctx) {
 	c05HistEmit(ctx, genC05Hist(ctx.R, (ctx.Idx/20)%c05HistShapes))
+}
+
+// ---------------------------------------------------------------------------------------------
+// C05 at every point where `wrgl merge` DELIVERS a result -- the CONFLICTS file of --no-gui (conflicts
+// and the rows merged without conflict), the MERGE file of --no-commit, the merge commit -- on a healthy
+// repository and on one in which an object the merge reads is missing (a block index, a block or a
+// table index of the base or of a branch: what a partially fetched or damaged repository looks like).
+// The property does not say a merge must succeed on such a repository; it says the outcome never
+// silently differs from the merge. So: whenever the command reports success, what it delivered must be
+// the three-way merge of the three tables as committed; a failure is accepted only when something was
+// taken away. Tables: key in front, same columns; with --no-gui the branches edit freely (conflicts are
+// listed in the file), otherwise the two sides own disjoint rows (no conflict, the merge tool never
+// opens). The base is sometimes a header-only table, sometimes spans several blocks.
+
+type c05FFault struct {
+	Kind  string `json:"kind"`  // blkidx | blk | tblidx
+	Table int    `json:"table"` // 0 base, 1 / 2 the branches
+	Block int    `json:"block"` // which block (modulo the table's block count)
+}
+
+type c05FInput struct {
+	Specs []*TableSpec `json:"specs"` // base, branch 1, branch 2
+	Mode  string       `json:"mode"`  // no-gui | no-commit | commit
+	Fault *c05FFault   `json:"fault,omitempty"`
+	// hex copies for the Lean driver
+	Columns  []string     `json:"columns"`
+	PK       []int        `json:"pk"`
+	Base     [][]string   `json:"base"`
+	Branches [][][]string `json:"branches"`
+}
+
+type c05FOut struct {
+	Failed       bool       `json:"failed"`
+	Msg          string     `json:"msg,omitempty"`
+	FaultApplied bool       `json:"faultApplied"`
+	Columns      []string   `json:"columns"`      // hex
+	Rows         [][]string `json:"rows"`         // hex: the rows delivered as merged
+	ConflictKeys [][]string `json:"conflictKeys"` // hex: --no-gui, the keys listed as conflicts
+}
+
+var c05FFaults = []*c05FFault{
+	nil, {Kind: "blkidx", Table: 2}, {Kind: "blkidx", Table: 1}, {Kind: "blk", Table: 0},
+	nil, {Kind: "blkidx", Table: 0}, {Kind: "blk", Table: 2}, {Kind: "tblidx", Table: 1},
+}
+
+// c05GenFault: everything but the random cells is a function of the case number j.
+func c05GenFault(r *rand.Rand, j int) *c05FInput {
+	in := &c05FInput{Mode: []string{"no-gui", "commit", "no-commit"}[j%3]}
+	if f := c05FFaults[(j/3)%len(c05FFaults)]; f != nil {
+		in.Fault = &c05FFault{Kind: f.Kind, Table: f.Table, Block: j / 24}
+	}
+	base := histBase(r, 0)
+	switch j % 5 {
+	case 1: // header-only base: the branches fill the table in
+		base.Rows = nil
+	case 3: // several blocks
+		big := 260 + r.Intn(300)
+		for i := len(base.Rows); i < big; i++ {
+			base.Rows = append(base.Rows, []string{fmt.Sprintf("%04d", i), []string{"p", "q", "r", ""}[r.Intn(4)], []string{"p", "q", ""}[r.Intn(3)], fmt.Sprint(i % 3)})
+		}
+	}
+	in.Specs = []*TableSpec{base}
+	for side := 0; side < 2; side++ {
+		var b *TableSpec
+		if in.Mode == "no-gui" {
+			b = deriveBranch(r, base, 0.25, 0.15, r.Intn(3), 10+5*r.Intn(2))
+			// every branch differs from the base (a commit must change something): one row of its own
+			nr := []string{fmt.Sprintf("8%d%02d", side, r.Intn(100)), "u", "v", ""}
+			b.Rows = append(b.Rows, nr)
+		} else {
+			b = c05HistEdit(r, base, side, 1)
+		}
+		in.Specs = append(in.Specs, b)
+	}
+	return in
+}
+
+func c05FRun(in *c05FInput) Res {
+	if len(in.Specs) != 3 {
+		return Err("bad-specs")
+	}
+	root, err := os.MkdirTemp(privateTmp(), "mflt-")
+	if err != nil {
+		return Err("tmpdir")
+	}
+	defer os.RemoveAll(root)
+	os.Setenv("XDG_CONFIG_HOME", filepath.Join(root, "xdg"))
+	os.Setenv("HOME", root)
+	return Guard(func() Res {
+		dir := filepath.Join(root, "repo", ".wrgl")
+		os.MkdirAll(filepath.Join(root, "repo"), 0755)
+		rd, err := local.NewRepoDir(dir, "")
+		if err != nil {
+			return Err("repodir")
+		}
+		if err := rd.Init(); err != nil {
+			return Err("init")
+		}
+		rd.Close()
+		short := func(s string) string {
+			s = strings.TrimSpace(s)
+			if len(s) > 200 {
+				s = s[:200]
+			}
+			return s
+		}
+		run := func(args ...string) (string, bool) {
+			out, err := cli(dir, args...)
+			if err != nil {
+				return strings.Join(args, " ") + ": " + out + ": " + err.Error(), false
+			}
+			return out, true
+		}
+		for _, a := range [][]string{{"config", "set", "user.email", "u@example.com"}, {"config", "set", "user.name", "U"}} {
+			if out, ok := run(a...); !ok {
+				return Res{"res": "err", "kind": "setup:" + short(out)}
+			}
+		}
+		names := []string{"main", "b1", "b2"}
+		for i, s := range in.Specs {
+			if i > 0 {
+				if out, ok := run("branch", "create", names[i], "main"); !ok {
+					return Res{"res": "err", "kind": "setup:" + short(out)}
+				}
+			}
+			fp := filepath.Join(root, fmt.Sprintf("t%d.csv", i))
+			os.WriteFile(fp, s.CSV(0), 0644)
+			if out, ok := run("commit", names[i], fp, "c", "-n", "1", "-p", strings.Join(s.PK, ",")); !ok {
+				return Res{"res": "err", "kind": "setup:" + short(out)}
+			}
+		}
+		out := &c05FOut{Rows: [][]string{}, ConflictKeys: [][]string{}, Columns: []string{}}
+		// take one object away
+		var key, saved []byte
+		if in.Fault != nil {
+			k, v, kind := c05FTake(dir, names[in.Fault.Table%3], in.Fault)
+			if kind != "" {
+				return Err("fault:" + kind)
+			}
+			key, saved = k, v
+			out.FaultApplied = key != nil
+		}
+		cwd, _ := os.Getwd()
+		os.Chdir(root)
+		defer os.Chdir(cwd)
+		args := []string{"merge", "b1", "b2", "-n", "1", "-m", "merged"}
+		if in.Mode != "commit" {
+			args = append(args, "--"+in.Mode)
+		}
+		msg, ok := run(args...)
+		out.Failed = !ok
+		out.Msg = short(msg)
+		if key != nil {
+			// put it back: what is read below must not depend on it
+			if kind := c05FPut(dir, key, saved); kind != "" {
+				return Err("restore:" + kind)
+			}
+		}
+		if out.Failed {
+			return Ok(out)
+		}
+		pkNames := in.Specs[0].PK
+		switch in.Mode {
+		case "no-gui":
+			files, _ := filepath.Glob(filepath.Join(root, "CONFLICTS_*.csv"))
+			if len(files) != 1 {
+				return Err("no-conflicts-file")
+			}
+			f, err := os.Open(files[0])
+			if err != nil {
+				return Err("open-conflicts-file")
+			}
+			defer f.Close()
+			cr := csv.NewReader(f)
+			cr.FieldsPerRecord = -1
+			recs, err := cr.ReadAll()
+			if err != nil || len(recs) == 0 || len(recs[0]) == 0 {
+				return Err("conflicts-file-not-csv")
+			}
+			hdr := recs[0][1:]
+			out.Columns = hxRow(hdr)
+			var kpos []int
+			for _, k := range pkNames {
+				for c, name := range hdr {
+					if name == k {
+						kpos = append(kpos, c)
+					}
+				}
+			}
+			seen := map[string]bool{}
+			for _, rec := range recs[1:] {
+				if len(rec) == 0 {
+					continue
+				}
+				label, cells := rec[0], rec[1:]
+				switch {
+				case label == "":
+					out.Rows = append(out.Rows, hxRow(cells))
+				case strings.HasPrefix(label, "COLUMNS IN "), label == "RESOLUTION":
+				default:
+					// the base's or a branch's version of a row in conflict ("REMOVED IN ..." fills the
+					// whole line when the branch has no such row)
+					if len(cells) > 0 && strings.HasPrefix(cells[0], "REMOVED IN ") {
+						continue
+					}
+					k := make([]string, len(kpos))
+					for i, p := range kpos {
+						if p < len(cells) {
+							k[i] = cells[p]
+						}
+					}
+					if id := fmt.Sprintf("%q", k); !seen[id] {
+						seen[id] = true
+						out.ConflictKeys = append(out.ConflictKeys, hxRow(k))
+					}
+				}
+			}
+		case "no-commit":
+			files, _ := filepath.Glob(filepath.Join(root, "MERGE_*.csv"))
+			if len(files) != 1 {
+				return Err("no-merge-file")
+			}
+			b, err := os.ReadFile(files[0])
+			if err != nil {
+				return Err("read-merge-file")
+			}
+			hdr, rows, err := rereadCSV(b, 0)
+			if err != nil {
+				return Err("merge-file-not-csv")
+			}
+			out.Columns = hxRow(hdr)
+			if r := hxRows(rows); r != nil {
+				out.Rows = r
+			}
+		default:
+			heads, kind := c05ReadHeads(dir, []string{"b1"})
+			if heads == nil {
+				return Err(kind)
+			}
+			out.Columns = heads["b1"].Columns
+			out.Rows = heads["b1"].Rows
+		}
+		return Ok(out)
+	})
+}
+
+// c05FTake removes one object of the table a branch points at from the repository's object store and
+// returns its key and bytes; a table without blocks has no block (index) to lose: nothing is removed.
+func c05FTake(dir, branch string, f *c05FFault) (key, val []byte, kind string) {
+	rd, err := local.NewRepoDir(dir, "")
+	if err != nil {
+		return nil, nil, "repodir"
+	}
+	defer rd.Close()
+	db, err := rd.OpenObjectsStore()
+	if err != nil {
+		return nil, nil, "open-objects"
+	}
+	defer db.Close()
+	sum, err := ref.GetHead(rd.OpenRefStore(), branch)
+	if err != nil {
+		return nil, nil, "head"
+	}
+	com, err := objects.GetCommit(db, sum)
+	if err != nil {
+		return nil, nil, "commit"
+	}
+	tbl, err := objects.GetTable(db, com.Table)
+	if err != nil {
+		return nil, nil, "table"
+	}
+	switch f.Kind {
+	case "blkidx":
+		if len(tbl.BlockIndices) == 0 {
+			return nil, nil, ""
+		}
+		key = append([]byte("blkidx/"), tbl.BlockIndices[f.Block%len(tbl.BlockIndices)]...)
+	case "blk":
+		if len(tbl.Blocks) == 0 {
+			return nil, nil, ""
+		}
+		key = append([]byte("blk/"), tbl.Blocks[f.Block%len(tbl.Blocks)]...)
+	case "tblidx":
+		key = append([]byte("tblidx/"), com.Table...)
+	default:
+		return nil, nil, "bad-fault-kind"
+	}
+	v, err := db.Get(key)
+	if err != nil {
+		return nil, nil, "get-object"
+	}
+	val = append([]byte{}, v...)
+	if err := db.Delete(key); err != nil {
+		return nil, nil, "delete-object"
+	}
+	return key, val, ""
+}
+
+func c05FPut(dir string, key, val []byte) string {
+	rd, err := local.NewRepoDir(dir, "")
+	if err != nil {
+		return "repodir"
+	}
+	defer rd.Close()
+	db, err := rd.OpenObjectsStore()
+	if err != nil {
+		return "open-objects"
+	}
+	defer db.Close()
+	if err := db.Set(key, val); err != nil {
+		return "set-object"
+	}
+	return ""
+}
+
+func c05FEmit(ctx *Ctx, in *c05FInput, tags ...string) {
+	base := in.Specs[0]
+	in.Columns, in.PK, in.Base = hxRow(base.Columns), base.PKIdx(), hxRows(base.Rows)
+	if in.Base == nil {
+		in.Base = [][]string{}
+	}
+	in.Branches = nil
+	for _, s := range in.Specs[1:] {
+		rows := hxRows(s.Rows)
+		if rows == nil {
+			rows = [][]string{}
+		}
+		in.Branches = append(in.Branches, rows)
+	}
+	tags = append(tags, "cli", "deliver", "deliver="+in.Mode)
+	if in.Fault != nil {
+		tags = append(tags, "object-missing", fmt.Sprintf("missing=%s-of-%d", in.Fault.Kind, in.Fault.Table))
+	} else {
+		tags = append(tags, "healthy-store")
+	}
+	switch {
+	case len(base.Rows) == 0:
+		tags = append(tags, "empty-base")
+	case len(base.Rows) > 255:
+		tags = append(tags, "multi-block")
+	}
+	res := c05FRun(in)
+	if res["res"] == "ok" {
+		o := res["val"].(*c05FOut)
+		if o.Failed {
+			tags = append(tags, "cmd-failed")
+		}
+		if len(o.ConflictKeys) > 0 {
+			tags = append(tags, "has-conflict")
+		}
+	}
+	ctx.Emit("merge-cli-deliver", in, res, true, tags...)
+}
+
+// runC05Fault: mode, fault and table shape are functions of the case index.
+func runC05Fault(ctx *Ctx, j int) {
+	c05FEmit(ctx, c05GenFault(ctx.R, j))
 }
